@@ -2,7 +2,7 @@ CONSTANTS
   MaxLen = 2
   PrefixKinds = {"full", "compile", "run"}
   Ds = {"", "/data/x.root"}
-  Os = {"default", "dir"}
+  Os = {"default", "dir", "file"}
 INIT RInit
 NEXT RNext
 INVARIANT DeliveredIsCurrent
